@@ -527,11 +527,12 @@ func reapplyOverwrittenContainers(finalPod *corev1.Pod, originalPod *corev1.Pod,
 		// sidecarStatus annotation is added on the pod by webhook. We should use new container template
 		// instead of restoring what may be previously injected. Doing this ensures we are correctly calculating
 		// env variables like ISTIO_META_APP_CONTAINERS and ISTIO_META_POD_PORTS.
-		if match := FindContainer(c.Name, parsedInjectedStatus.Containers); match != nil {
-			continue
-		}
+		// Overrides recorded by the first injection are still applied, so that re-injection is idempotent.
 		match := FindContainer(c.Name, existingOverrides.Containers)
 		if match == nil {
+			if FindContainer(c.Name, parsedInjectedStatus.Containers) != nil {
+				continue
+			}
 			match = FindContainer(c.Name, originalPod.Spec.Containers)
 		}
 		if match == nil {
@@ -550,11 +551,11 @@ func reapplyOverwrittenContainers(finalPod *corev1.Pod, originalPod *corev1.Pod,
 		finalPod = newMergedPod
 	}
 	for _, c := range templatePod.Spec.InitContainers {
-		if match := FindContainer(c.Name, parsedInjectedStatus.InitContainers); match != nil {
-			continue
-		}
 		match := FindContainer(c.Name, existingOverrides.InitContainers)
 		if match == nil {
+			if FindContainer(c.Name, parsedInjectedStatus.InitContainers) != nil {
+				continue
+			}
 			match = FindContainerFromPod(c.Name, originalPod)
 		}
 		if match == nil {
